@@ -264,11 +264,14 @@ def lastWrite (evs : List Event) (k : JKey) (n : Bytes) : Option Val := lastWrit
 
 /-- §5.1.3 with the cookie domain canonicalised as in §5.2.3 (lower case, one leading dot ignored):
     the host is identical to the domain, or the domain is a suffix of the host that starts right
-    after a dot and the host is not an IP address (`isIP`). -/
+    after a dot and the host is not an IP address (`isIP`).
+    An EMPTY cookie domain (Domain value "" or ".") is not a domain at all: RFC 6265 §5.2.3 / §5.3 step 4 make such a cookie
+    host-only, so nothing suffix-matches it — only the (degenerate) host string identical to the attribute itself does. -/
 def domainMatch6265 (isIP : Bytes → Bool) (host dom : Bytes) : Bool :=
   let h := asciiLower host
   let d := dropDot (asciiLower dom)
-  decide (h = d) || ((dot :: d).isSuffixOf h && !isIP h)
+  decide (h = d) ||
+    (if d = [] then decide (h = asciiLower dom) else ((dot :: d).isSuffixOf h && !isIP h))
 
 /-- §5.1.4 path-match of a request path (the path part of the request target) against a cookie path -/
 def pathMatch6265 (r c : Bytes) : Bool :=
